@@ -13,6 +13,10 @@ DEC_TYPES = [
     ["cont", [["vec", ["bool"], 2], ["union", True, [["bool"]]]]],
     ["list", ["cont", [["uint", 1], ["bytelist", 3]]], 2],
     ["vec", ["cont", [["uint", 2], ["bool"]]], 2], ["list", ["uint", 4], 5], ["list", ["bitvec", 4], 4],
+    # lengths beyond one chunk (256 bits / 32 bytes): the multi-chunk code paths of the bit / byte decoders
+    ["bitvec", 257], ["bitvec", 300], ["bitvec", 513], ["bitvec", 256], ["bitlist", 257], ["bitlist", 600],
+    ["bitlist", 256], ["bytevec", 33], ["bytelist", 65], ["vec", ["bool"], 33], ["list", ["uint", 2], 40],
+    ["cont", [["bitvec", 300], ["bitlist", 300]]], ["list", ["bitvec", 260], 2], ["vec", ["uint", 8], 5],
 ]
 
 
@@ -58,11 +62,28 @@ def corrupt(rng, enc):
 def gen_tb(ctx, n_random, n_short):
     rng = ctx.rng
     types = list(DEC_TYPES)
-    # exhaustive: every string of length <= 1, plus every length-2 string for a few tiny types
+    # exhaustive: every string of length <= 1 for types that can be that short, plus every length-2 string
+    # for a few tiny types
     for t in types:
         yield {"t": t, "b": ""}
-        for x in range(256):
-            yield {"t": t, "b": "%02x" % x}
+        if T(t).min_byte_length() <= 1:
+            for x in range(256):
+                yield {"t": t, "b": "%02x" % x}
+    # every value of the LAST and of the FIRST byte of valid encodings (padding bits, delimiter bit, booleans,
+    # selectors, offsets' low byte), for every listed type
+    for t in types:
+        for rep in range(2 if ctx.thorough else 1):
+            try:
+                enc = bytes(to_py(t, gen_value(rng, t, cap=6)).encode_bytes())
+            except Exception:
+                continue
+            if not enc or len(enc) > 200:
+                continue
+            step = 1 if ctx.thorough else 3
+            for x in range(0, 256, step):
+                yield {"t": t, "b": (enc[:-1] + bytes([x])).hex()}
+            for x in list(range(0, 256, 5 if not ctx.thorough else 1)):
+                yield {"t": t, "b": (bytes([x]) + enc[1:]).hex()}
     for t in types[:n_short]:
         for x in range(0, 65536, 1 if ctx.thorough else 97):
             yield {"t": t, "b": "%04x" % x}
